@@ -85,8 +85,8 @@ def check_program(env, rec, prog, origin, seedinfo, do_shrink=True):
         limit = 20 * len(it.instances) + 50
         built = env.build(prog)
         try:
-            for variant in ("tag", "dynamic"):
-                got = env.render(built, mode, variant, limit=limit * (2 if variant == "dynamic" else 1))
+            for variant in ("tag", "dynamic", "dynamic-all"):
+                got = env.render(built, mode, variant, limit=limit * (1 if variant == "tag" else 2))
                 rec.observe("renders-compared")
                 prob = compare(ref, got)
                 if prob:
